@@ -73,6 +73,8 @@ def writer_escape_table(fn):
                     pushed.append(arg["v"] if arg["kind"] == "char" else chr(arg["v"]))
                 else:
                     pushed.append(None)     # the character itself
+            elif x.get("t") == "MethodCall" and x["method"] == "push_str" and x["args"] and x["args"][0].get("t") == "Lit" and x["args"][0].get("kind") == "str":
+                pushed.extend(list(x["args"][0]["v"]))      # push_str("\\n") == push('\\'); push('n')
         if len(pushed) != 2 or pushed[0] != "\\":
             probs.append("arm for %r pushes %r (expected a backslash followed by one character)" % (chars, pushed))
             continue
